@@ -38,7 +38,7 @@ def lchar(c):
 
 
 NARROWS = {'optstr': 'str', 'optint': 'matchpos'}     # `x is None` tests narrow an optional to this type
-EXC = {'ValueError': 'PyExc.valueError', 'RuntimeError': 'PyExc.runtimeError', 'IndexError': 'PyExc.indexError', 'KeyError': 'PyExc.keyError'}
+EXC = {'ValueError': 'PyExc.valueError', 'RuntimeError': 'PyExc.runtimeError', 'IndexError': 'PyExc.indexError', 'KeyError': 'PyExc.keyError', 'TypeError': 'PyExc.typeError'}
 
 
 def is_loop(x):
@@ -89,6 +89,11 @@ class TrS:
             if ta == tb == 'int':
                 return "(%s %s %s)" % (a, '+' if isinstance(n.op, ast.Add) else '-', b), 'int'
             raise Untranslatable("binop types %s %s" % (ta, tb))
+        if isinstance(n, ast.BinOp) and isinstance(n.op, ast.Mod) and isinstance(n.right, ast.Constant) and isinstance(n.right.value, int) \
+                and not isinstance(n.right.value, bool) and n.right.value > 0:
+            a, ta = self.expr(n.left)
+            if ta == 'int':        # Python's % with a positive modulus is the non-negative remainder: Lean's `%` on Int (`Int.emod`)
+                return "(%s %% (%d : Int))" % (a, n.right.value), 'int'
         if isinstance(n, ast.UnaryOp) and isinstance(n.op, ast.USub):
             a, ta = self.expr(n.operand)
             if ta == 'int':
@@ -254,6 +259,9 @@ class TrS:
             if isinstance(op, (ast.Eq, ast.NotEq)) and ta == 'char' and isinstance(r, ast.Constant) and isinstance(r.value, str) and len(r.value) == 1:
                 e = "(%s == %s)" % (a, lchar(r.value))          # x[i] == "c": one-character strings are equal iff the characters are
                 return (e if isinstance(op, ast.Eq) else "(!%s)" % e), 'bool'
+            if isinstance(op, (ast.In, ast.NotIn)) and ta == 'char' and tb == 'str':
+                e = "((%s).contains %s)" % (b, a)       # x[i] in "abc": a one-character string is in s iff the character occurs in s
+                return (e if isinstance(op, ast.In) else "(!%s)" % e), 'bool'
             if isinstance(op, (ast.In, ast.NotIn)) and ta == 'str' and tb == 'strdict':
                 e = "(PyOps.dictHas %s %s)" % (b, a)
                 return (e if isinstance(op, ast.In) else "(!%s)" % e), 'bool'
@@ -432,6 +440,10 @@ class TrS:
                 return "pure (PyOps.Ctl.next %s)" % in_loop[1]
             if in_loop:
                 return "pure none"
+            if ret == 'int':
+                self.assumptions.add("a function used as an int that falls off its end returns None; the generated function raises TypeError there "
+                                     "(what the first arithmetic use of the result does in the caller)")
+                return "throw PyExc.typeError"
             raise Untranslatable("falls off the end without a value")
         s, tail = stmts[0], stmts[1:]
         if isinstance(s, ast.Return) and isinstance(s.value, ast.IfExp):
